@@ -39,7 +39,8 @@ fn alphabet(thorough: bool) -> Vec<DataDef> {
         for n in [0u16, 2, 255, 32768, 65535] {
             v.push(DataDef::ArrVal(lab(&mut k), w, vals[0] ^ n as i32 & 0x7F, n));
         }
-        for s in ["", "a", "ab", "seventeen chars!!"] {
+        // the last two contain quote characters themselves (at the ends and inside)
+        for s in ["", "a", "ab", "seventeen chars!!", "\"q\"", "x\"y"] {
             v.push(DataDef::Str(lab(&mut k), w, s.to_string()));
         }
     }
